@@ -1084,6 +1084,11 @@ func (vc *VC) exec(st *State, ins ssa.Instruction) error {
 			base = a.Ref
 			embedded = a.Sub
 		}
+		if g, ok := x.X.(*ssa.Global); ok {
+			// a package-level struct variable: its storage is a fixed non-nil object
+			base = vc.declareNamed("gaddr_"+g.Pkg.Pkg.Name()+"_"+g.Name(), "Int")
+			embedded = true
+		}
 		if !embedded { // storage embedded in another object is never nil by itself
 			vc.panicOb(st, "nil", "field("+fieldName(x.X.Type(), x.Field)+")", sx("not", sx("=", base, "0")))
 		}
